@@ -83,6 +83,14 @@ func KFDefs() []KFDef {
 			Witness: witness("w-capture", map[string]string{"main": "fn mk(p: int) -> int {\n    let a = 10;\n    let b = 20;\n    let c = p;\n    let f = fn(k: int) -> int { k + c + b };\n    f(1) + a\n}\nfn main() {\n    println(mk(5));\n}\n"},
 				false, TagCapture),
 		},
+		{
+			Name: KFJsonKind,
+			What: "to_json / to_json_indent walk the fields of an object in map order and stop at the first value that has no JSON representation; the fatal JsonError names the KIND of that value: an object holding a range and a function ends in `... of type 'range'` or in `... of type 'closure'` from run to run (both value libraries)",
+			Sig:  "^(vm|tree)-outcome:.*Cannot encode",
+			Tag:  TagJsonMixed,
+			Witness: witness("w-json-kind-order", map[string]string{"main": "fn main() {\n    let f = fn(k: int) -> int { k };\n    let d = new { ? };\n    d.set(\"x\", f);\n    d.set(\"y\", 3..4);\n    println(\"a\");\n    println(d.to_json());\n    println(\"done\");\n}\n"},
+				false, TagJsonMixed),
+		},
 	}
 }
 
